@@ -25,6 +25,12 @@ func isPtrMapKeyedBy(t types.Type, keyName string) bool {
 	if _, ok := m.Elem().Underlying().(*types.Pointer); !ok {
 		return false
 	}
+	if strings.HasPrefix(keyName, "elem:") {
+		// selected by the element type instead: map[K]*T with T named as given
+		p := m.Elem().Underlying().(*types.Pointer)
+		n := namedOf(p.Elem())
+		return n != nil && n.Obj().Name() == strings.TrimPrefix(keyName, "elem:")
+	}
 	n := namedOf(m.Key())
 	return n != nil && n.Obj().Name() == keyName
 }
@@ -237,12 +243,41 @@ var nilmapFacts *Facts
 // derefsParamUnguarded: somewhere in the callee the parameter is dereferenced (field access or load) at a point
 // that is not dominated by a test establishing that it is non-nil.
 func derefsParamUnguarded(fn *ssa.Function, p *ssa.Parameter) bool {
-	if nilmapFacts == nil || p.Referrers() == nil {
+	return derefsParamUnguardedD(fn, p, 2, map[*ssa.Parameter]bool{})
+}
+
+// derefsParamUnguardedD: … directly, or by handing the parameter — without a nil test on the way — to a module
+// function that does (to the given depth).
+func derefsParamUnguardedD(fn *ssa.Function, p *ssa.Parameter, depth int, seen map[*ssa.Parameter]bool) bool {
+	if nilmapFacts == nil || p.Referrers() == nil || seen[p] {
 		return false
 	}
+	seen[p] = true
 	pt := termOf(p).String()
 	for _, r := range *p.Referrers() {
 		var at ssa.Instruction
+		if cc, isCall := r.(ssa.CallInstruction); isCall && depth > 0 {
+			cal := calleeOf(cc)
+			if cal != nil && len(cal.Blocks) > 0 && hasModPrefix(cal) && !isTestdataOrMock(cal) {
+				for i, a := range cc.Common().Args {
+					if a != ssa.Value(p) || i >= len(cal.Params) {
+						continue
+					}
+					fs := nilmapFacts.FactsAt(cc)
+					if fs.Bottom {
+						continue
+					}
+					if _, guarded := fs.find(func(f Fact) bool {
+						return factNilTerm(f, false, func(t *Term) bool { return t.String() == pt })
+					}); guarded {
+						continue
+					}
+					if derefsParamUnconditionally(cal, cal.Params[i]) || derefsParamUnguardedD(cal, cal.Params[i], depth-1, seen) {
+						return true
+					}
+				}
+			}
+		}
 		switch x := r.(type) {
 		case *ssa.FieldAddr:
 			if x.X == ssa.Value(p) {
